@@ -706,6 +706,40 @@ func (x *exec) step(st *Step) {
 			return
 		}
 		mb.Release(h)
+	case kPut:
+		k := []byte(st.Keys[0])
+		var ops []kv.FlagsOp
+		if st.MemFlags&1 != 0 {
+			ops = append(ops, kv.SetNewlyInserted)
+		}
+		if st.MemFlags&2 != 0 {
+			ops = append(ops, kv.SetPresumeKeyNotExists)
+		}
+		if st.MemFlags&4 != 0 {
+			ops = append(ops, kv.SetAssertNotExist)
+		}
+		if err := txn.GetMemBuffer().SetWithFlags(k, x.val(), ops...); err != nil {
+			fail(err)
+			return
+		}
+		tok := "put"
+		if st.MemFlags&1 != 0 {
+			tok += "{newly-inserted}"
+		}
+		if st.ThenDel {
+			if err := txn.Delete(k); err != nil {
+				fail(err)
+				return
+			}
+			tok += "+delete"
+		}
+		if x.held[st.Keys[0]] {
+			x.e.r.Count("flagged_writes_of_a_locked_key:"+tok, 1)
+		} else {
+			tok += ":unlocked"
+		}
+		x.touch(st.Keys, tok)
+		x.event(st.Keys, tok, nil)
 	case kSet, kDel:
 		if x.p.Pess && !st.NoLockFirst && !x.held[st.Keys[0]] {
 			if err := x.lockCall(st, &sr); err != nil {
@@ -1177,6 +1211,12 @@ func optTag(s Step) string {
 	if s.Ctx != ctxBackground {
 		t += "~" + fmt.Sprint(int(s.Ctx))
 	}
+	if s.Kind == kPut {
+		t += fmt.Sprintf("f%d", s.MemFlags)
+		if s.ThenDel {
+			t += "d"
+		}
+	}
 	return t
 }
 
@@ -1316,4 +1356,6 @@ func TestVerifC06(t *testing.T) {
 	r.Floor("failed_lock_calls_whose_context_was_cancelled_after_return_or_during", 150)
 	r.Floor("ctx:RetryAggressiveLocking:cancel-after", 40)
 	r.Floor("calls_cancelled_during:LockKeys", 10)
+	r.Floor("flagged_writes_of_a_locked_key:put{newly-inserted}+delete", 25)
+	r.Floor("flagged_writes_of_a_locked_key:put{newly-inserted}", 25)
 }
